@@ -287,6 +287,7 @@ pub fn resolve_inputs(spec: &str, seed: u64) -> Vec<Input> {
             "fam" => out.extend(family_inputs(f[2], f[1])),
             "ctl" => out.extend(control_inputs(f[1])),
             "ops" => out.extend(operator_inputs()),
+            "par" => out.extend(parallel_inputs(seed, f[1].parse().unwrap())),
             "proposals" => out.extend(proposal_inputs(seed, f[1].parse().unwrap())),
             "cust" => out.extend(custom_layout_inputs(f[1])),
             "fixtures" => out.extend(fixture_inputs().into_iter().filter(|i| absmod::validate(&i.bytes).is_ok())),
@@ -313,6 +314,11 @@ pub fn profile_opts(profile: &str) -> GenOpts {
             o.max_funcs = 3;
             o.fuel = 12;
             o.names = false;
+            o.customs = false;
+        }
+        "many" => {
+            o.max_funcs = 300;
+            o.fuel = 30;
             o.customs = false;
         }
         "mvp" => o.feat = gen::Feat::mvp(),
@@ -1072,4 +1078,81 @@ pub fn sample(inputs: Vec<Input>, n: usize) -> Vec<Input> {
     }
     let step = inputs.len() as f64 / n as f64;
     (0..n).map(|k| inputs[(k as f64 * step) as usize].clone()).collect()
+}
+
+// ---- parallel vs serial (C09) -------------------------------------------------------------------
+
+/// many-function modules (equal and unequal sizes); a third of them with two corrupted function bodies, so that
+/// the error that is reported depends on which failing job the post-pass sees first
+pub fn parallel_inputs(seed: u64, n: u64) -> Vec<Input> {
+    use rand::Rng;
+    let mut out = vec![];
+    for k in 0..n {
+        let s = seed.wrapping_mul(7_000_003).wrapping_add(k);
+        let mut o = profile_opts("many");
+        // a spread of function counts: 1, 2, ..., a few hundred
+        o.max_funcs = [1usize, 2, 3, 5, 17, 64, 127, 128, 129, 300][(k % 10) as usize];
+        let mut r = gen::rng(s);
+        if k % 4 == 0 {
+            o.fuel = 0; // equal (minimal) sizes
+        }
+        let (g, _) = gen::gen_valid(s, &o);
+        let mut bytes = g.bytes;
+        let mut tag = "valid";
+        if k % 3 == 2 {
+            // corrupt the last `end` of two different bodies
+            let mut ranges = vec![];
+            for p in wasmparser::Parser::new(0).parse_all(&bytes) {
+                if let Ok(wasmparser::Payload::CodeSectionEntry(b)) = p {
+                    ranges.push(b.range());
+                }
+            }
+            if ranges.len() >= 2 {
+                let a = r.gen_range(0..ranges.len());
+                let mut b = r.gen_range(0..ranges.len());
+                if b == a {
+                    b = (a + 1) % ranges.len();
+                }
+                for (x, newop) in [(a, 0x1au8), (b, 0x00u8)] {
+                    let end = ranges[x].end - 1;
+                    if bytes[end] == 0x0b {
+                        bytes[end] = newop;
+                    }
+                }
+                tag = "two-bad-bodies";
+            }
+        }
+        out.push(Input { id: format!("par-{}-{}", k, tag), bytes, source: format!("par:{}:{}:{}", seed, k, tag) });
+    }
+    out
+}
+
+/// what one build (serial or parallel) does with an input: decision, digest, and the order in which the
+/// per-function jobs were started (hook events)
+pub fn par_case(inp: &Input) -> Value {
+    let cfg = Cfg { probe: false, ..Default::default() };
+    #[cfg(walrus_verif)]
+    walrus::verif::enable(true);
+    let rt = run::roundtrip(&inp.bytes, &cfg, 0);
+    #[cfg(walrus_verif)]
+    let (pj, ej, threads): (Vec<i64>, Vec<i64>, usize) = {
+        walrus::verif::enable(false);
+        let ev = walrus::verif::drain();
+        let mut t = std::collections::BTreeSet::new();
+        let mut pj = vec![];
+        let mut ej = vec![];
+        for e in ev.iter().filter(|e| e.name == "job") {
+            t.insert(e.thread);
+            if e.detail == "parse" {
+                pj.push(e.num)
+            } else {
+                ej.push(e.num)
+            }
+        }
+        (pj, ej, t.len())
+    };
+    #[cfg(not(walrus_verif))]
+    let (pj, ej, threads): (Vec<i64>, Vec<i64>, usize) = (vec![], vec![], 0);
+    json!({"id": inp.id, "source": inp.source, "outcome": rt.outcome, "digest": if rt.outcome == "ok" { absmod::fnv(&rt.out) } else { String::new() },
+           "parse_jobs": pj, "emit_jobs": ej, "threads_seen": threads})
 }
